@@ -59,3 +59,5 @@ Example C02_nonvacuous :
   /\ canon t v = Some ["-12345678901234567890"; "x y"; "GREEN"; "-0.25"]
   /\ leaf_parse_gen t ["-12345678901234567890"; "x y"; "GREEN"; "-0.25"] = Ok v.
 Proof. vm_compute. repeat split; reflexivity. Qed.
+Print Assumptions C02_float_instances.
+Print Assumptions C02_nonvacuous.
